@@ -11,7 +11,7 @@ from .common import call_name, names_in, self_attr
 from .discharge import controlling_tests
 
 
-def run(ctx) -> None:
+def run(ctx, skip_includes: bool = False) -> None:
     rep = ctx.rep
     a = ctx.a
     sa = SignalAnchors(a)
@@ -121,7 +121,8 @@ def run(ctx) -> None:
     # the dispatching instance / channel identity is C11's business: shared obligation
     from .common import include_rules
 
-    include_rules(ctx, "c11", "C10.R2", only=("C11.R1", "C11.R2", "C11.R3", "C11.R6"))
+    if not skip_includes:
+        include_rules(ctx, "c11", "C10.R2", only=("C11.R1", "C11.R2", "C11.R3", "C11.R6"))
 
     # ------------------------------------------------------------------ R3 non-blocking
     rep.check("C10.R3", not D.is_async, D, D.node, "dispatch is a plain function: it cannot block on a subscriber", "dispatch is a coroutine")
@@ -201,6 +202,34 @@ def run(ctx) -> None:
                 btw = secfg.between([an_.id], [rn.id], avoid=heads) - {an_.id, rn.id}
                 raising = [i for i in btw if a.node_may_raise(stream_events, secfg, secfg.nodes[i])]
                 rep.check("C10.R4", secfg.dominates(an_.id, rn.id) and not raising, stream_events, rc, "the removal is registered right after the stream was added (nothing can fail in between)", "something can fail between adding the stream and registering its removal: the subscription would leak")
+        elif any(isinstance(r_, ast.Return) and r_.value is not None for r_ in walk_own(Sub.node)):
+            # form (d): the helper subscribes and RETURNS the callable that unsubscribes; the
+            # caller has to register it before anything else can fail - in particular before
+            # the next signal is subscribed (which raises for an unbound signal)
+            ret = [r_ for r_ in walk_own(Sub.node) if isinstance(r_, ast.Return) and r_.value is not None][0].value
+            undo_ok = any(isinstance(x, ast.Attribute) and x.attr == "remove" and isinstance(x.value, ast.Attribute) and x.value.attr == streams for x in ast.walk(ret))
+            if not undo_ok and isinstance(ret, ast.Name) and ret.id in Sub.nested:
+                undo_ok = any(mu.kind == "call:remove" and mu.path[-1] == streams for _n, mu in a.func_mutations(Sub.nested[ret.id]))
+            rep.check("C10.R4", undo_ok, Sub, ret, "the subscribing helper returns a callable that removes exactly this stream", "what the subscribing helper returns does not remove the stream from the subscriber list")
+            sub_calls = [(n, c) for n in secfg.live_nodes() for c, cal in a.node_calls(stream_events, secfg, n) if cal.kind == "func" and cal.func is Sub]
+            if not sub_calls:
+                rep.violate("C10.R4", stream_events, stream_events.node, "stream_events never subscribes through the helper")
+            for n, c in sub_calls:
+                sub_point = (n, c)
+                sub_stream_arg = c.args[0] if c.args else None
+                in_comp = any(isinstance(x, (ast.ListComp, ast.GeneratorExp, ast.SetComp, ast.DictComp)) and any(y is c for y in ast.walk(x)) for x in walk_own(stream_events.node))
+                # registered in the same statement, or in the next one(s) of the same loop
+                # iteration with nothing in between that may raise
+                same_stmt = any(nm == "callback" and any(y is c for y in ast.walk(rc_)) for _rn, rc_, nm in regs)
+                later = False
+                if not same_stmt and not in_comp and n.kind == "stmt" and isinstance(n.ast, ast.Assign) and isinstance(n.ast.targets[0], ast.Name):
+                    v_ = n.ast.targets[0].id
+                    for rn_, rc_, nm in regs:
+                        if nm == "callback" and rc_.args and isinstance(rc_.args[0], ast.Name) and rc_.args[0].id == v_:
+                            heads = [x.id for x in secfg.live_nodes() if x.kind == "for_next"]
+                            btw = secfg.between([n.id], [rn_.id], avoid=heads) - {n.id, rn_.id}
+                            later = secfg.dominates(n.id, rn_.id) and rn_.id in secfg.reach([n.id], avoid=heads) and not any(a.node_may_raise(stream_events, secfg, secfg.nodes[i]) for i in btw)
+                rep.check("C10.R4", (same_stmt or later) and not in_comp, stream_events, c, "every subscription's removal is registered on the exit stack before the next signal is subscribed", "all signals are subscribed first and the removals registered afterwards (or not at all): if a later signal is unbound (UnboundSignal) the earlier subscriptions are never undone, the send stream is closed by the exit stack and every later dispatch on those signals raises ClosedResourceError")
         else:
             rep.unrecognised("C10.R4", Sub, am.node, "a stream is added to a subscriber list in an unexpected function")
     if sub_point is not None:
@@ -224,7 +253,31 @@ def run(ctx) -> None:
         ok = bool(loops2) and isinstance(loops2[-1][0], ast.Name) and loops2[-1][0].id == sig_param
         rep.check("C10.R4", ok, stream_events, sc, "every signal of the `signals` argument is subscribed", "not every given signal is subscribed")
         rep.check("C10.R4", isinstance(sub_stream_arg, ast.Name) and sub_stream_arg.id == send_v, stream_events, sc, "all signals feed the same send stream", "the subscription does not use this stream's send end")
-    rep.floor("C10.R4", len(regs), 3)  # send, receive, subscription (an eager close of the filtered generator is optional)
+    rep.floor("C10.R4", len(regs), 3)
+    # nobody else ends a subscription: the streams in a subscriber list are neither closed nor
+    # removed anywhere but in the subscription's own exit (a "release all listeners" helper makes
+    # later dispatches vanish for listeners that never left)
+    foreign = []
+    for g in ctx.p.all_functions():
+        if g.is_lambda:
+            continue
+        subs = {S_ for S_, _n, _m in sa.add_sites}
+        for n_, m_ in a.func_mutations(g):
+            if len(m_.path) >= 2 and m_.path[-1] == streams and m_.kind != "rebind" and g not in subs and g is not sa.get:
+                # removing ONE stream that the caller names (an unsubscribe helper) is the
+                # subscription's own exit; anything wholesale is not
+                one = m_.kind == "call:remove" and isinstance(m_.node, ast.Call) and len(m_.node.args) == 1 and isinstance(m_.node.args[0], ast.Name) and m_.node.args[0].id in g.params and not enclosing_loops(g, m_.node)
+                if not one:
+                    foreign.append((g, m_.node, f"`{m_.kind.replace('call:', '.')}` on the subscriber list"))
+        for lp in walk_own(g.node):
+            if isinstance(lp, (ast.For, ast.AsyncFor)) and isinstance(lp.target, ast.Name) and any(isinstance(x, ast.Attribute) and x.attr == streams for x in ast.walk(lp.iter)):
+                for c_ in ast.walk(lp):
+                    if isinstance(c_, ast.Call) and isinstance(c_.func, ast.Attribute) and c_.func.attr in ("close", "aclose") and isinstance(c_.func.value, ast.Name) and c_.func.value.id == lp.target.id:
+                        foreign.append((g, c_, f"`{ast.unparse(c_)}` on every subscriber's stream"))
+    for g, node_, what_ in foreign:
+        rep.violate("C10.R4", g, node_, f"{what_} outside the subscription's own exit: listeners that have not left their stream stop receiving events that are dispatched afterwards")
+    if not foreign:
+        rep.hold("C10.R4", stream_events, None, "subscriber streams are closed / removed only by the exit of their own subscription", nontrivial=False)  # send, receive, subscription (an eager close of the filtered generator is optional)
 
     # ------------------------------------------------------------------ R5 filter on every yielded event
     fparam = stream_events.params[1] if len(stream_events.params) > 1 else "filter"
